@@ -106,7 +106,7 @@ class RWorld(c07.UWorld):
         I.check(bad is None, f"outbound MsgSeqNum reused for a different message: {bad}")
 
 
-def h_restart_quiescent(I, nphases, maxsend=2):
+def h_restart_quiescent(I, nphases, maxsend=2, first_restart=None):
     w = RWorld(I)
     w.logon(0)
     for k in range(nphases):
@@ -116,7 +116,7 @@ def h_restart_quiescent(I, nphases, maxsend=2):
         for _ in range(nb):
             w.send("B")
         w.quiesce("A" if I.choice(f"drain{k}", 2) == 0 else "B")
-        side = ("A", "B", None)[I.choice(f"restart{k}", 3)]
+        side = ("A", "B", None)[first_restart if (k == 0 and first_restart is not None) else I.choice(f"restart{k}", 3)]
         if side is not None:
             graceful = I.bool(f"graceful{k}")
             if graceful:
@@ -254,10 +254,12 @@ def cells(tier):
                             dict(state=sname, inbound=kind, counters="symbolic, 1 digit" if quick else "symbolic, 2 digits"),
                             goals=["compared"], regions=reg, budget_s=2400))
     for n, ms in (((1, 2), (2, 1)) if quick else ((1, 2), (2, 2), (3, 1))):
-        ms = ms if not (quick and n == 2) else 1
-        out.append(Cell(f"restart-quiescent/{n}", (lambda I, n=n, ms=ms: h_restart_quiescent(I, n, ms)),
-                        dict(phases=n, per_phase=f"0..{ms} sends per side (symbolic), drain order, then restart of A / B / nobody (symbolic), graceful or killed (symbolic)"),
-                        goals=["done", "restarted"], budget_s=3000))
+        for fr in ((None,) if n == 1 else (0, 1, 2)):
+            goals = ["done"] + (["restarted"] if fr != 2 else [])
+            out.append(Cell(f"restart-quiescent/{n}" + ("" if fr is None else "/" + ("A", "B", "nobody")[fr] + "-first"),
+                            (lambda I, n=n, ms=ms, fr=fr: h_restart_quiescent(I, n, ms, fr)),
+                            dict(phases=n, per_phase=f"0..{ms} sends per side (symbolic), drain order, then restart of A / B / nobody (symbolic), graceful or killed (symbolic)"),
+                            goals=goals, budget_s=3000))
     out.append(Cell("crash-in-send", h_crash_in_send,
                     dict(crash_point="inside the journal write (symbolic statement / commit slot 1..8) / after the transport write / after the drain",
                          in_flight="the frame written before the crash reaches the peer or not (symbolic)"), goals=["done", "crashed", "send-completed"], budget_s=2400))
